@@ -29,7 +29,8 @@ EXTENDS Naturals, Sequences, FiniteSets, TLC
 
 CONSTANTS Workers, Idents, Methods, TTL, MaxClock, CacheCaps, MaxStreams, MaxReq,
           OnlyLegit,       \* generation aid: restrict continuations to legitimate requests (C14's quantifier)
-          FixCacheExpiry, FixMethodBind, FixHitWrongCall, FixHitChecksCall
+          FixCacheExpiry, FixMethodBind, FixHitWrongCall, FixHitChecksCall,
+          NoExpiry         \* the deployment runs with token_ttl = 0: tokens never expire (every other rule still applies)
 
 NoTok == [sid |-> 0, ident |-> "-", meth |-> "-", created |-> 0]
 VARIABLES clock, streams, cursors, cache, cap, nreq, last
@@ -43,7 +44,8 @@ NoLast == [kind |-> "none", legit |-> FALSE, served |-> FALSE, cold |-> FALSE, f
 Init == /\ clock = 0 /\ streams = {} /\ cursors = {} /\ cache = [w \in Workers |-> <<>>] /\ nreq = 0 /\ last = NoLast
         /\ cap \in [Workers -> CacheCaps]
 
-Fresh(tok) == clock - tok.created <= TTL
+Fresh(tok) == NoExpiry \/ clock - tok.created <= TTL
+FarFuture == MaxClock + TTL + 1000     \* cache entries of a no-expiry deployment live for the cache's own (long) ttl
 Drop(seq, sid, ident) == SelectSeq(seq, LAMBDA e : ~(e.sid = sid /\ e.ident = ident))
 Put(seq, e, c) == LET s1 == Append(Drop(seq, e.sid, e.ident), e)
                   IN IF c = 0 THEN <<>> ELSE IF Len(s1) > c THEN Tail(s1) ELSE s1
@@ -54,7 +56,7 @@ InitStream(w, id, m) ==
   /\ LET sid == Cardinality(streams) + 1
          tok == [sid |-> sid, ident |-> id, meth |-> m, created |-> clock] IN
      /\ streams' = streams \cup {tok} /\ cursors' = cursors \cup {tok}
-     /\ cache' = [cache EXCEPT ![w] = Put(@, [sid |-> sid, ident |-> id, exp |-> clock + TTL], cap[w])]
+     /\ cache' = [cache EXCEPT ![w] = Put(@, [sid |-> sid, ident |-> id, exp |-> IF NoExpiry THEN FarFuture ELSE clock + TTL], cap[w])]
   /\ nreq' = nreq + 1 /\ last' = [NoLast EXCEPT !.kind = "init", !.req = <<w, id, m>>] /\ UNCHANGED <<clock, cap>>
 
 MethOK(tok, ep) == FixMethodBind => tok.meth = ep
@@ -77,7 +79,7 @@ Cont(w, id, ep, cur, call) ==
          missok == miss /\ call # NoTok /\ call.ident = id /\ MethOK(call, ep) /\ Fresh(call) /\ call.sid = cur.sid
          served == hit \/ missok
          base == IF expired \/ miss THEN Drop(cache[w], cur.sid, id) ELSE cache[w]
-         newexp == IF FixCacheExpiry THEN call.created + TTL ELSE clock + TTL
+         newexp == IF NoExpiry THEN FarFuture ELSE IF FixCacheExpiry THEN call.created + TTL ELSE clock + TTL
      IN /\ cache' = [cache EXCEPT ![w] =
                        IF hit THEN Put(@, cache[w][CHOOSE i \in live : cache[w][i].exp > clock], cap[w])   \* move_to_end, same expiry
                        ELSE IF missok THEN Put(base, [sid |-> cur.sid, ident |-> id, exp |-> newexp], cap[w])
